@@ -46,6 +46,19 @@ func (e *Env) Trace() ([]Event, []Snapshot) {
 	return append([]Event(nil), e.trace...), append([]Snapshot(nil), e.snaps...)
 }
 
+// apiCalls counts difference requests made so far.
+func (e *Env) apiCalls() int {
+	e.mu.Lock()
+	defer e.mu.Unlock()
+	n := 0
+	for _, ev := range e.trace {
+		if ev.Kind == "A" {
+			n++
+		}
+	}
+	return n
+}
+
 func (e *Env) progress() int {
 	e.mu.Lock()
 	defer e.mu.Unlock()
